@@ -179,7 +179,7 @@ func (g *G) uri() string {
 	if g.p(70) {
 		sb.WriteString(g.pick(g.alnum(1, 6), "a;b", "a?b", "u;p=1", "+1234", "a.b-c"))
 		if g.p(30) {
-			sb.WriteString(":" + g.pick(g.alnum(1, 5), "123", "p;w", ""))
+			sb.WriteString(":" + g.pick(g.alnum(1, 5), "123", "p;w", "", "0065", "1", fmt.Sprint(g.n(70000))))
 		}
 		sb.WriteString("@")
 	}
@@ -378,6 +378,9 @@ func (g *G) hdrLine() (string, string) {
 		name = g.hdrName(knownHdrs[g.n(len(knownHdrs))])
 	} else {
 		name = g.pick("X-"+g.tok(1, 6), "Subject", "Allow", "Fro", "Too", "Content-Lengt", "Vi", "x", g.tok(1, 10))
+	}
+	if g.p(8) { // an empty value
+		return name, name + g.pick("", " ") + ":" + g.pick("", " ", "\t") + g.eol()
 	}
 	return name, name + g.pick("", "", " ", "\t ") + ":" + g.ows() + g.hdrValue(name) + g.pick("", "", " ", "\t") + g.eol()
 }
